@@ -652,7 +652,10 @@ class Executor:
                 k = idx.t
                 yield s, Val(h.c["dv"][base.t][k], ANY)
                 return
-            ii = z3.If(i < 0, n + i, i)
+            if z3.is_const(i) and i.decl().kind() == z3.Z3_OP_UNINTERPRETED and i.decl().name() in smt.NONNEG:
+                ii = i  # a comprehension index (0 <= i by its guard): no negative-index normalisation, so the read is a usable trigger
+            else:
+                ii = z3.If(i < 0, n + i, i)
             if self.pure_depth:
                 yield s, self.typed_read(h.c["sa"][base.t][ii], ety, s)
                 return
@@ -736,6 +739,7 @@ class Executor:
         j = z3.Int(smt.push_binder("q") if bound else smt.fresh_name("q"))
         elem = view.at(j)
         guard = z3.And(0 <= j, j < view.len)
+        smt.NONNEG.add(j.decl().name())  # every use of the binder stands under this guard (guard -> body / guard and body)
         return j, guard, elem, view
 
     def iter_view(self, it, s) -> SeqView:
